@@ -40,8 +40,15 @@ ASSUMPTIONS = [
     "what a NEWRESOLVE event notifies is unspecified: calls made while delivering it are not judged",
     "GUARD_WAIT and CONTROLLER_WAIT have no listener method: no notification is owed for them",
     "for objects first seen in the snapshot by a listener registered before the bootstrap, circuit_extend calls are not judged",
-    "several notifications owed for one event (e.g. circuit_new + circuit_launched) are compared as a multiset",
-    "listeners are added/removed between deliveries, not inside callbacks",
+    "several notifications owed for one event (e.g. circuit_new + circuit_launched) are compared as a multiset; but at the "
+    "instant circuit_built is delivered, and at the instant a when_built() requested from circuit_new fires, Circuit.path "
+    "must hold exactly the hops of that BUILT line",
+    "a SENTCONNECT on another circuit with no DETACHED before it: whether stream_attach is announced for it is not "
+    "judged; the later transitions of the stream are",
+    "listeners are ADDED between deliveries only; removal also happens inside callbacks: a listener double unlistens "
+    "itself or another listener from the object while a line is being delivered. A listener nobody removed during "
+    "that delivery is owed exactly one notification per transition of the line; the removed one is not judged for "
+    "that line and is owed nothing afterwards",
     "a listener may raise from its callback (after the double recorded the call): every other registered listener is "
     "still owed exactly that notification, and the waits still complete",
     "a requester may return a pending Deferred from a callback on the Deferred it was handed, or cancel it: that "
@@ -95,9 +102,11 @@ FLOORS = {
               "histories_with_all_positions": 3,
               "closed_after_failed_events": 100, "first_seen_in_mid_life_events": 100,
               "final_lines_lacking_an_earlier_keyword": 500,
+              "moved_without_detached": 30, "paths_compared_at_circuit_built": 100, "paths_compared_at_when_built": 25,
               "build_circuit_requests": 60, "build_circuit_results_compared": 60, "circuit_object_counts_compared": 350,
               "kwargs_compared_with_quoted_value": 25, "kwargs_not_judged_quoted_value_with_blank": 60,
-              "listener_exceptions_raised": 40, "close_requests_to_be_refused": 60, "waits_meddled_pending": 130,
+              "unlistened_inside_callback_self": 50, "unlistened_inside_callback_another_listener": 10,
+              "listener_exceptions_raised": 20, "close_requests_to_be_refused": 60, "waits_meddled_pending": 130,
               "waits_meddled_cancel": 70, "close_ack_late_then_event": 100,
               "reach:txtorcon.circuit:Circuit.close": 450, "reach:txtorcon.stream:Stream.close": 450,
               "reach:txtorcon.circuit:Circuit.when_built": 250, "reach:txtorcon.util:SingleObserver.fire": 2100,
@@ -130,7 +139,8 @@ def wire_or_plain(v):
     return (v,)
 
 
-def make_listeners(log, raises):
+def make_listeners(log, raises, built_fired, drops):
+    peers = {}
     from txtorcon.interface import ICircuitListener, IStreamListener
 
     @implementer(ICircuitListener)
@@ -138,6 +148,20 @@ def make_listeners(log, raises):
         def __init__(self, idx):
             self.idx = idx
             self.raising = 0          # raise from the next n callbacks (after recording them)
+            self.dropping = 0         # unlisten (self or the victim) from the object inside the next n callbacks
+            self.victim = None
+
+        def _after(self, obj):
+            if self.dropping > 0:
+                self.dropping -= 1
+                target = self if self.victim is None else peers["c"][self.victim]
+                try:
+                    obj.unlisten(target)
+                    done = True
+                except ValueError:
+                    done = False          # the target was not (or no longer) on this object
+                drops.append(("c", self.idx, obj, target.idx, done))
+            self._maybe_raise()
 
         def _maybe_raise(self):
             if self.raising > 0:
@@ -150,33 +174,53 @@ def make_listeners(log, raises):
 
         def circuit_new(self, circuit):
             log.append(("c", self.idx, "circuit_new", circuit, None, None))
-            self._maybe_raise()
+            if self.idx == 0:
+                # a listener that waits for the circuit it has just been handed
+                circuit.when_built().addCallbacks(
+                    lambda c, o=circuit: built_fired.append((o, tuple(getattr(r, "id_hex", None) for r in o.path))),
+                    lambda f: None)
+            self._after(circuit)
 
         def circuit_launched(self, circuit):
             log.append(("c", self.idx, "circuit_launched", circuit, None, None))
-            self._maybe_raise()
+            self._after(circuit)
 
         def circuit_extend(self, circuit, router):
             log.append(("c", self.idx, "circuit_extend", circuit, router, None))
-            self._maybe_raise()
+            self._after(circuit)
 
         def circuit_built(self, circuit):
-            log.append(("c", self.idx, "circuit_built", circuit, None, None))
-            self._maybe_raise()
+            log.append(("c", self.idx, "circuit_built", circuit,
+                        ("path", tuple(getattr(r, "id_hex", None) for r in circuit.path)), None))
+            self._after(circuit)
 
         def circuit_closed(self, circuit, **kw):
             log.append(("c", self.idx, "circuit_closed", circuit, None, kw))
-            self._maybe_raise()
+            self._after(circuit)
 
         def circuit_failed(self, circuit, **kw):
             log.append(("c", self.idx, "circuit_failed", circuit, None, kw))
-            self._maybe_raise()
+            self._after(circuit)
 
     @implementer(IStreamListener)
     class StreamListener(object):
         def __init__(self, idx):
             self.idx = idx
             self.raising = 0          # raise from the next n callbacks (after recording them)
+            self.dropping = 0         # unlisten (self or the victim) from the object inside the next n callbacks
+            self.victim = None
+
+        def _after(self, obj):
+            if self.dropping > 0:
+                self.dropping -= 1
+                target = self if self.victim is None else peers["s"][self.victim]
+                try:
+                    obj.unlisten(target)
+                    done = True
+                except ValueError:
+                    done = False          # the target was not (or no longer) on this object
+                drops.append(("s", self.idx, obj, target.idx, done))
+            self._maybe_raise()
 
         def _maybe_raise(self):
             if self.raising > 0:
@@ -189,30 +233,31 @@ def make_listeners(log, raises):
 
         def stream_new(self, stream):
             log.append(("s", self.idx, "stream_new", stream, None, None))
-            self._maybe_raise()
+            self._after(stream)
 
         def stream_succeeded(self, stream):
             log.append(("s", self.idx, "stream_succeeded", stream, None, None))
-            self._maybe_raise()
+            self._after(stream)
 
         def stream_attach(self, stream, circuit):
             log.append(("s", self.idx, "stream_attach", stream, circuit, None))
-            self._maybe_raise()
+            self._after(stream)
 
         def stream_detach(self, stream, **kw):
             log.append(("s", self.idx, "stream_detach", stream, None, kw))
-            self._maybe_raise()
+            self._after(stream)
 
         def stream_closed(self, stream, **kw):
             log.append(("s", self.idx, "stream_closed", stream, None, kw))
-            self._maybe_raise()
+            self._after(stream)
 
         def stream_failed(self, stream, **kw):
             log.append(("s", self.idx, "stream_failed", stream, None, kw))
-            self._maybe_raise()
+            self._after(stream)
 
-    return ([CircuitListener(i) for i in range(N_LISTENERS)],
-            [StreamListener(i) for i in range(N_LISTENERS)])
+    peers["c"] = [CircuitListener(i) for i in range(N_LISTENERS)]
+    peers["s"] = [StreamListener(i) for i in range(N_LISTENERS)]
+    return peers["c"], peers["s"]
 
 
 # ---------------------------------------------------------------------------
@@ -251,10 +296,14 @@ class Engine(object):
         self.removed = {"c": {}, "s": {}}      # kind -> uid -> set(listener idx)
         self.dead_reg = {"c": {}, "s": {}}     # kind -> uid -> registrations at the moment the object went
         self.seen_keys = {}                    # (kind, uid) -> keywords Tor has sent for the object so far
+        self.built_fired = []                  # (circuit object, its path) at the instant a when_built() requested in circuit_new fired
+        self.built_path = {}                   # uid -> hops of the first BUILT line Tor sent (or snapshot entry)
         self.builds = []                       # build_circuit() requests: {"o": Outcome, "uid": .., "followed": ..}
         self.build_uids = set()
         self.circuit_objects_created = 0       # by TorState, after the bootstrap
         self.circuit_first_sights = 0          # circuits Tor reported for the first time, after the bootstrap
+        self.drops = []                        # (kind, actor, object, target, done) unlisten calls made inside callbacks
+        self.dropped_inside = False            # ... some during the delivery being judged
         self.raises = []                       # (kind, listener) each time a double raised, per delivery
         self.raise_uids = set()                # objects during whose notification a listener raised
         self.policies = {}
@@ -332,7 +381,7 @@ class Engine(object):
             self.tor.subscribed = {"CIRC", "STREAM"}
             self.ses = None
         else:
-            self.clisteners, self.slisteners = make_listeners(self.log, self.raises)
+            self.clisteners, self.slisteners = make_listeners(self.log, self.raises, self.built_fired, self.drops)
 
             def before(state):
                 for i in sorted(self.globals["c"]):
@@ -463,6 +512,13 @@ class Engine(object):
                 o = self.ses.auditor.watch(self.state.build_circuit(), "build_circuit")
                 self.builds.append({"o": o, "uid": None, "followed": False, "pos": self.pos})
             self.pump("build")
+            return
+        if k == "selfdrop":
+            self.count("listeners_armed_to_unlisten_inside_callback")
+            if not self.dry:
+                lst = (self.clisteners if op["k"] == "c" else self.slisteners)[op["l"]]
+                lst.dropping = int(op.get("n", 1))
+                lst.victim = op.get("victim")
             return
         if k == "raise":
             self.count("listeners_armed_to_raise")
@@ -649,6 +705,7 @@ class Engine(object):
         expected = []              # (okind, listener, method, uid, extra, kw)
         unspecified = set()
         snapshot_uids = set()
+        self.built_now = {}        # uid -> (hops of the BUILT line in this delivery, ev)
         self.ghost_ids = {}        # (okind, Tor's id) -> uid: events whose client-side object is created and dropped at once
         self.unjudged = set()      # (okind, listener, uid)
         for ev in evs:
@@ -658,6 +715,11 @@ class Engine(object):
                 self.ghost_ids[(okind, ev.oid)] = ev.uid
             if okind == "c" and ev.first_sight and not ev.snapshot:
                 self.circuit_first_sights += 1
+            if okind == "c" and ev.status == "BUILT":
+                toks = ev.text.split()
+                hops = tuple(h[:41] for h in toks[2].split(",")) if len(toks) > 2 and toks[2].startswith("$") else ()
+                self.built_now[ev.uid] = (hops, ev)
+                self.built_path.setdefault(ev.uid, hops)
             if ev.first_sight and not ev.snapshot and ev.status not in ("LAUNCHED", "NEW", "NEWRESOLVE"):
                 self.count("first_seen_in_mid_life_events")
             if ev.ghost and not ev.first_sight:
@@ -708,6 +770,20 @@ class Engine(object):
                     self.objmap[("s", m.uid)] = o
                     self.rev[id(o)] = ("s", m.uid)
         calls, self.log[:] = list(self.log), []
+        drops, self.drops[:] = list(self.drops), []
+        self.dropped_inside = False
+        for (okind, actor, obj, target, done) in drops:
+            if not done:
+                continue
+            who = self.rev.get(id(obj))
+            uid = who[1] if who and who[0] == okind else self.ghost_ids.get((okind, getattr(obj, "id", None)))
+            self.dropped_inside = True
+            self.count("unlistened_inside_callback" + ("_self" if actor == target else "_another_listener"))
+            # the removed listener is not judged for this line and is owed nothing afterwards
+            self.unjudged.add((okind, target, uid))
+            if uid is not None:
+                self.reg[okind].get(uid, {}).pop(target, None)
+                self.removed[okind].setdefault(uid, set()).add(target)
         if self.raises:
             self.count("listener_exceptions_raised", len(self.raises))
             for ev in evs:
@@ -722,6 +798,18 @@ class Engine(object):
             if ev.gone:
                 k = "c" if ev.kind == "CIRC" else "s"
                 self.dead_reg[k][ev.uid] = self.reg[k].pop(ev.uid, {})
+        fired, self.built_fired[:] = list(self.built_fired), []
+        for (obj, ids) in fired:
+            who = self.rev.get(id(obj))
+            if who is None or who[1] not in self.built_path:
+                continue
+            self.count("paths_compared_at_when_built")
+            if ids != self.built_path[who[1]]:
+                m, _ = self.model_obj("c", who[1])
+                self.V("when-built-fired-before-hops-recorded",
+                       "first-report-BUILT" if m is not None and m.first_seen.endswith("BUILT") else "built-after-earlier-lines",
+                       {"circuit": getattr(obj, "id", None), "path_when_the_wait_fired": list(ids),
+                        "hops_tor_reported_with_BUILT": list(self.built_path[who[1]])})
         self.follow_builds()
         self.judge_waits_safety(label)
         errs = self.ses.errors.take()
@@ -735,7 +823,7 @@ class Engine(object):
         want = {}
         kwreq = {}
         for (okind, l, method, uid, extra, kw, ev) in expected:
-            if (okind, uid) in unspecified:
+            if (okind, uid) in unspecified or (okind, l, uid) in self.unjudged:
                 continue
             if method == "circuit_extend" and (okind, uid) in snapshot_uids:
                 continue
@@ -755,7 +843,7 @@ class Engine(object):
                 # first heard of when it ended): identified by Tor's id
                 uid = self.ghost_ids.get((okind, getattr(obj, "id", None)))
             if (okind, l, uid) in self.unjudged:
-                self.count("calls_not_judged_forgotten_object")
+                self.count("calls_not_judged_listener_removed_or_object_forgotten")
                 continue
             if (okind, uid) in unspecified:
                 self.count("calls_not_judged_unspecified")
@@ -764,6 +852,13 @@ class Engine(object):
                 self.count("calls_not_judged_snapshot_extend")
                 continue
             extra = None
+            if method == "circuit_built" and uid in self.built_now:
+                hops, bev = self.built_now[uid]
+                self.count("paths_compared_at_circuit_built")
+                if tuple(arg[1]) != hops:
+                    self.V("circuit-built-before-hops-recorded",
+                           "first-report-BUILT" if bev.first_sight else "built-after-earlier-lines",
+                           {"event": bev.text, "path_when_circuit_built_was_delivered": list(arg[1]), "listener": l})
             if method == "circuit_extend":
                 extra = getattr(arg, "id_hex", repr(arg))
             elif method == "stream_attach":
@@ -828,6 +923,8 @@ class Engine(object):
                 clause = "notification-duplicate"
             if self.raises:
                 scope += ",a-listener-raised"
+            if self.dropped_inside:
+                scope += ",a-listener-unlistened-inside-the-delivery"
             self.V(clause, "%s,on=%s,listener=%s" % (method, evname, scope),
                    {"listener": l, "method": method, "object": [okind, uid], "argument": extra,
                     "owed": w, "observed": g, "events": texts, "delivery": label})
@@ -1017,9 +1114,13 @@ def random_op(rnd, eng):
     r = rnd.random()
     if r < 0.03 and len(sim.circuits) < sim.max_circuits:
         return {"op": "build"}
-    if r < 0.06:
+    if r < 0.12:
+        l = rnd.randrange(N_LISTENERS)
+        victim = rnd.choice([None, None] + [i for i in range(N_LISTENERS) if i != l])
+        return {"op": "selfdrop", "k": rnd.choice("cs"), "l": l, "n": rnd.choice([1, 2, 3, 4]), "victim": victim}
+    if r < 0.145:
         return {"op": "raise", "k": rnd.choice("cs"), "l": rnd.randrange(N_LISTENERS), "n": rnd.choice([1, 1, 2, 3])}
-    if r < 0.16:
+    if r < 0.22:
         return {"op": "gl+", "k": rnd.choice("cs"), "l": rnd.randrange(N_LISTENERS)}
     if r < 0.30:
         okind = rnd.choice("cs")
@@ -1171,6 +1272,8 @@ OP_TEMPLATES = [
      {"op": "cclose", "via": "object", "order": "together", "hold": 0}],
     [{"op": "cclose", "via": "object", "refuse": True}, {"op": "cclose", "via": "object", "order": "ack-first", "hold": 1}],
     [{"op": "raise", "l": 0, "n": 2}, {"op": "gl+", "l": 1}],
+    [{"op": "selfdrop", "l": 0, "n": 3, "victim": None}],
+    [{"op": "selfdrop", "l": 0, "n": 2, "victim": 1}],
     [{"op": "gl+", "l": 0}], [{"op": "ol+", "l": 1}], [{"op": "gl+", "l": 0}, {"op": "ol-", "l": 0}],
     [{"op": "ol+", "l": 2}, {"op": "ol-", "l": 2}],
 ]
@@ -1186,6 +1289,8 @@ S_TEMPLATES = [
     [{"op": "sclose", "via": "object", "order": "ack-first", "hold": 2, "meddle": "cancel"},
      {"op": "sclose", "via": "object", "order": "together", "hold": 0}],
     [{"op": "raise", "l": 0, "n": 2}, {"op": "gl+", "l": 1}],
+    [{"op": "selfdrop", "l": 0, "n": 3, "victim": None}],
+    [{"op": "selfdrop", "l": 0, "n": 2, "victim": 1}],
     [{"op": "gl+", "l": 0}], [{"op": "ol+", "l": 1}], [{"op": "gl+", "l": 0}, {"op": "ol-", "l": 0}],
 ]
 
@@ -1195,6 +1300,8 @@ def positional_cases(rnd, tier):
     operation of two-operation templates): complete enumeration of positions for that history"""
     case = base_case(rnd, tier)
     case["pre_listeners"] = {"c": [], "s": []}
+    if case["boot"] == "ctor" and rnd.random() < 0.5:
+        case["pre_listeners"] = {"c": [0, 1], "s": [0, 1]}      # (listener 0 comes before listener 1 on every object)
     sim = torsim.TorSim(max_circuits=case["limits"][0], max_streams=case["limits"][1])
     for a in case["pre"]:
         sim.apply(a)
@@ -1229,7 +1336,8 @@ def run_case(case, rec):
     eng = Engine(case, rec)
     eng.run()
     for k in ("circuit_id_reused", "stream_id_reused", "circuit_died_under_streams", "closecircuit_ifunused_kept",
-              "failed_closed_pairs", "stream_first_seen_in_mid_life"):
+              "failed_closed_pairs", "stream_first_seen_in_mid_life", "moved_without_detached",
+              "unattached_by_remap_0", "objects_with_quoted_keywords"):
         if eng.sim.stats.get(k):
             rec.count(k, eng.sim.stats[k])
     rec.case(case, nontrivial=bool(eng.compared or eng.waits))
